@@ -58,17 +58,6 @@ def changed(repo, baseline_path):
     return out
 
 
-if __name__ == "__main__":
-    import sys
-    repo = sys.argv[1] if len(sys.argv) > 1 else "/repo"
-    here = os.path.dirname(os.path.dirname(os.path.abspath(__file__)))
-    with open(os.path.join(here, "fingerprints.json"), "w") as f:
-        fp = compute(repo)
-        fp["__twin_diffs__"] = twin_diffs(repo)
-        json.dump(fp, f, indent=0, sort_keys=True)
-    print("wrote fingerprints for", repo)
-
-
 # ---- twin comparison (search guidance for C16) ------------------------------------------------------------------
 class _Erase(ast.NodeTransformer):
     """await-erasure: what remains of the async twin once async/await/Async are removed"""
@@ -125,3 +114,14 @@ def twin_diffs(repo):
     a = _methods(os.path.join(repo, "adb_shell", "adb_device.py"), False)
     b = _methods(os.path.join(repo, "adb_shell", "adb_device_async.py"), True)
     return sorted(k for k in set(a) | set(b) if a.get(k) != b.get(k))
+
+
+if __name__ == "__main__":
+    import sys
+    repo = sys.argv[1] if len(sys.argv) > 1 else "/repo"
+    here = os.path.dirname(os.path.dirname(os.path.abspath(__file__)))
+    with open(os.path.join(here, "fingerprints.json"), "w") as f:
+        fp = compute(repo)
+        fp["__twin_diffs__"] = twin_diffs(repo)
+        json.dump(fp, f, indent=0, sort_keys=True)
+    print("wrote fingerprints for", repo)
